@@ -1,4 +1,5 @@
 import UberjobModel.Model.Engine
+import UberjobModel.Model.Kahn
 /-!
   Line-protocol driver for the executable models (one request per line, one reply per line).
   Used by the Python harness for the correspondence checks (T2/T3).
@@ -86,10 +87,21 @@ def cmdEngine (rest : String) : Ctx × String :=
     | _ => ({}, "bad-op")
   | _ => ({}, "bad-op")
 
+/-- `kahn | n0 n1 ... | u,v u,v ...` -/
+def cmdKahn (rest : String) : String :=
+  match rest.splitOn "|" with
+  | [_, ns, es] =>
+    let g := Engine.Graph.ofEdges (nats ns) (parseEdges es)
+    match Kahn.kahn g with
+    | some out => "order " ++ " ".intercalate (out.map toString)
+    | none => "cycle"
+  | _ => "bad-op"
+
 def step (c : Ctx) (line : String) : Ctx × String :=
   let line := line.trimAscii.toString
   match (line.splitOn " ").filter (· ≠ "") with
   | "engine" :: _ => cmdEngine (line.drop 6).toString
+  | "kahn" :: _ => (c, cmdKahn line)
   | "ev" :: ts =>
     if c.dead then (c, "dead") else
     match parseLabel ts with
